@@ -77,6 +77,15 @@ def bodyOK (e : PEnv) (ops : List (Op × Nat)) : Bool :=
   | some (body, endLoc) =>
     decide (ops = body.flat ++ [(opEnd, endLoc)]) && body.wfB && body.cleanB && (expL e [0] 1 false body).isSome
 
+/-- the shape of one function body alone: well-nested, immediates where the format has them -/
+def shapeOK (ops : List (Op × Nat)) : Bool :=
+  match unflat ops with
+  | none => false
+  | some (body, endLoc) => decide (ops = body.flat ++ [(opEnd, endLoc)]) && body.wfB && body.cleanB
+
+/-- every function body of the module has that shape (a condition on the input alone) -/
+def shapesOK (m : ModuleM) : Bool := m.code.all fun c => shapeOK c.2
+
 /-- every function body of the module is well-nested, clean and parses in tree terms -/
 def bodiesOK (m : ModuleM) (g : GcInfo) : Bool :=
   (List.range g.pfs.length).all fun k =>
